@@ -55,52 +55,76 @@ def run(ctx):
     rep.check(n_ops >= 8, "C19.R1", "F32Scalar:operations-counted", "%d functions return F32Scalar; all must go through new (monopoly)" % n_ops, "only %d functions return F32Scalar" % n_ops, site=S)
 
     new = prog.fn(S + "::new")
+    # The stored value has three definitions (canonical NaN bits, +0 bits for subnormals, `num + 0.0` otherwise).  They may be
+    # three struct constructions or three assignments to one local that a single construction stores: the rule looks at the
+    # blocks that DEFINE the stored value, whichever shape.
+    og = new.origins()
     aggs = agg_blocks(new, S)
-    rep.check(len(aggs) == 3, "C19.R2", "new:three-constructions", "three construction sites (NaN, subnormal, normal)", "construction sites in new: %d" % len(aggs), site=new.loc())
+    vdefs = []   # (block, consts, from_bits, from_param, is_add_zero)
+
+    def describe_def(bb, rv_or_call, is_call):
+        if is_call:
+            t_ = rv_or_call
+            callee = new.callee_of(t_) or ""
+            consts = {str(a.get("v", a.get("k"))) for a in t_["args"] if "k" in a}
+            return (bb, consts, callee.endswith("from_bits"), any(op_place(a) is not None and ("param", 1) in near_origins(new, a) for a in t_["args"]), False)
+        rv = rv_or_call
+        if rv["r"] == "bin" and rv["op"] in ("Add", "AddUnchecked"):
+            zero = any("k" in o and str(o["k"]).startswith("0") for o in (rv["a"], rv["b"]))
+            return (bb, set(), False, True, zero)
+        return (bb, set(), False, any(("param", 1) in near_origins(new, o) for o in operands_of_rvalue(rv)), False)
+
+    seen_locals = set()
+    stack = []
+    for b in aggs:
+        for st_ in new.blocks[b]["st"]:
+            if st_[0] == "a" and st_[2]["r"] == "agg" and st_[2].get("adt") == S:
+                stack.append(st_[2]["os"][0])
+    while stack:
+        o = stack.pop()
+        pl = op_place(o)
+        if pl is None or pl[0] in seen_locals:
+            continue
+        seen_locals.add(pl[0])
+        for d in new.defs().get(pl[0], ()):
+            if d[0] == "call":
+                vdefs.append(describe_def(d[1], d[2], True))
+            elif d[0] == "assign":
+                rv = d[4]
+                if rv["r"] == "use" and op_place(rv["o"]) is not None and not op_place(rv["o"])[1] and op_place(rv["o"])[0] > new.argc:
+                    stack.append(rv["o"])
+                else:
+                    vdefs.append(describe_def(d[1], rv, False))
+    rep.check(len(vdefs) == 3, "C19.R2", "new:three-constructions", "three definitions of the stored value (NaN, subnormal, normal)", "definitions of the stored value in new: %d" % len(vdefs), site=new.loc())
     nan = new.call_sites(r"f32>::is_nan$")
     sub = new.call_sites(r"f32>::is_subnormal$")
     rep.check(len(nan) == 1 and len(sub) == 1, "C19.R2", "new:gates-present", "is_nan and is_subnormal tests present", "is_nan=%d is_subnormal=%d" % (len(nan), len(sub)), site=new.loc())
-    og = new.origins()
-
-    def agg_value_tokens(b):
-        for st in new.blocks[b]["st"]:
-            if st[0] == "a" and st[2]["r"] == "agg" and st[2].get("adt") == S:
-                return og.of_operand(st[2]["os"][0], deep=True)
-        return frozenset()
-    consts = {}
-    for b in aggs:
-        ats = agg_value_tokens(b)
-        cs = {str(a.key) for a in ats if a.kind == "const"}
-        from_bits = any(a.kind == "call" and a.key[0].endswith("from_bits") for a in ats)
-        from_param = any(a.kind == "param" for a in ats)
-        consts[b] = (cs, from_bits, from_param)
-    if nan and sub:
+    vblocks = [v[0] for v in vdefs]
+    if nan and sub and vdefs:
         for gate, label, want_bits in ((nan[0], "nan", "2143289344"), (sub[0], "subnormal", "0")):
             sws = succ_edges_of_bool_call(new, gate) or []
             okg = False
             for sw in sws:
                 reach = new.reachable([sw["true"]], avoid_edges=[(sw["sw"], sw["false"])])
-                hit = [b for b in aggs if b in reach]
+                hit = [v for v in vdefs if v[0] in reach]
                 if len(hit) == 1:
-                    cs, fb, fp = consts[hit[0]]
+                    bb_, cs, fb, fp, az = hit[0]
                     if fb and not fp and any(want_bits == c.split("_")[0] for c in cs):
                         okg = True
             rep.check(okg, "C19.R2", "new:%s-gate" % label, "%s input → from_bits(%s), never the input value" % (label, want_bits),
                       "the %s gate does not force the canonical bit pattern %s" % (label, want_bits), site=new.loc())
-        adds = [(bi, rv) for bi, si, place, rv, line in new.assigns() if rv["r"] == "bin" and rv["op"] in ("Add", "AddUnchecked")]
-        ok_add = any(("k" in rv["b"] and rv["b"]["k"].startswith("0")) or ("k" in rv["a"] and rv["a"]["k"].startswith("0")) for bi, rv in adds)
-        normal = [b for b in aggs if consts[b][2] and not consts[b][1]]
-        rep.check(ok_add and len(normal) == 1, "C19.R2", "new:negative-zero-gate", "normal path stores num + 0.0", "the normal path no longer adds 0.0 (−0.0 would survive)", site=new.loc())
-        # the normal construction is reachable only when both gates said no
+        normal = [v for v in vdefs if v[3] and not v[2]]
+        rep.check(len(normal) == 1 and normal[0][4], "C19.R2", "new:negative-zero-gate", "normal path stores num + 0.0", "the normal path no longer adds 0.0 (−0.0 would survive)", site=new.loc())
+        # the pass-through definition is reachable only when both gates said no
         if normal:
             cut = []
             for gate in (nan[0], sub[0]):
                 for sw in succ_edges_of_bool_call(new, gate) or []:
                     cut.append((sw["sw"], sw["false"]))
-            w = reachable_without_edges(new, normal, cut[:1]) if cut else [0]
-            w2 = reachable_without_edges(new, normal, cut[1:2]) if len(cut) > 1 else [0]
-            rep.check(w is None and w2 is None, "C19.R2", "new:normal-path-after-both-gates", "the pass-through construction is reached only after both tests were false",
-                      "a NaN or subnormal can reach the pass-through construction", site=new.loc())
+            w = reachable_without_edges(new, [normal[0][0]], cut[:1]) if cut else [0]
+            w2 = reachable_without_edges(new, [normal[0][0]], cut[1:2]) if len(cut) > 1 else [0]
+            rep.check(w is None and w2 is None, "C19.R2", "new:normal-path-after-both-gates", "the pass-through value is reached only after both tests were false",
+                      "a NaN or subnormal can reach the pass-through value", site=new.loc())
 
     frx = re.compile(FORBIDDEN)
     scopes = {"warp_math": lambda f: f.crate == "warp_math", "warp_geom": lambda f: f.crate == "warp_geom",
